@@ -148,9 +148,14 @@ func TestStoredNodes(t *testing.T) {
 			if err := mptkit.Apply(mpt, ops); err != nil {
 				rt.Fatalf("history %v: %v", hist, err)
 			}
-			// save what has changed so far into the persistent sink
-			if err := mpt.SaveChanges(context.Background(), sink, false); err != nil {
-				rt.Fatalf("SaveChanges: %v", err)
+			// save what has changed so far into the persistent sink; a save may also cover the changes of several
+			// versions at once (the last round always saves)
+			if r+1 == rounds || gen.Chance(rt, 60, "savenow") {
+				if err := mpt.SaveChanges(context.Background(), sink, false); err != nil {
+					rt.Fatalf("SaveChanges: %v", err)
+				}
+			} else {
+				ev.Class("one-save-covers-several-versions", 1)
 			}
 			if r+1 < rounds && v0 < 1<<62 {
 				version++
@@ -192,6 +197,54 @@ func TestStoredNodes(t *testing.T) {
 		if ev.WantSample() {
 			ev.Sample(map[string]any{"store": kind, "v0": v0, "rounds": hist, "raw_records": len(raw)})
 		}
+	})
+}
+
+// One SaveChanges with more nodes than the persistent store's batch size (256): every raw record must still be
+// stored under the hash of its own content and the saved root must re-read completely.
+func TestLargeSave(t *testing.T) {
+	ev.Rapid(t, 3, 12)
+	rapid.Check(t, func(rt *rapid.T) {
+		nkeys := gen.Uniform(rt, 260, 520, "nkeys")
+		v0 := gen.Pick(rt, []int64{0, 3, 1 << 31}, "v0")
+		mpt := mptkit.NewTrie(util.NewMemoryNodeDB(), v0, nil)
+		model := map[string][]byte{}
+		for i := 0; i < nkeys; i++ {
+			p := fmt.Sprintf("%02x%04x%02x", gen.Uniform(rt, 0, 255, "a"), i*7919%65536, gen.Uniform(rt, 0, 255, "b"))
+			v := []byte(fmt.Sprintf("value-%d-%d", i, gen.Uniform(rt, 0, 99, "v")))
+			if _, err := mpt.Insert(util.Path(p), mptkit.Val(v)); err != nil {
+				rt.Fatalf("HARNESS: insert: %v", err)
+			}
+			model[p] = v
+			if i == nkeys/2 && v0 < 1<<31 && gen.Chance(rt, 50, "bump") {
+				mpt.SetVersion(util.Sequence(v0 + 1))
+			}
+		}
+		sink, sinkDir := mptkit.NewPNodeDB()
+		defer mptkit.DropDir(sinkDir)
+		changes := mpt.GetChangeCount()
+		if err := mpt.SaveChanges(context.Background(), sink, false); err != nil {
+			rt.Fatalf("SaveChanges of %d nodes: %v", changes, err)
+		}
+		raw := grocksdb.StoreFor(sinkDir).Snapshot("default")
+		for k, enc := range raw {
+			rn, err := refmpt.Parse(enc)
+			if err != nil {
+				rt.Fatalf("large save (%d nodes): raw record %x does not parse", changes, k)
+			}
+			if !bytes.Equal(refmpt.Hash(rn), []byte(k)) {
+				rt.Fatalf("large save (%d nodes): raw record under %x hashes to %x", changes, k, refmpt.Hash(rn))
+			}
+		}
+		w := refmpt.WalkFrom(mpt.GetRoot(), mptkit.GetterOfMap(raw), false)
+		if len(w.Problems) > 0 || len(w.Missing) > 0 || !mptkit.EqualContent(w.Content, model) {
+			rt.Fatalf("large save (%d keys, %d nodes): re-read from raw bytes: problems %v, %d missing, %d of %d pairs", nkeys, changes, w.Problems, len(w.Missing), len(w.Content), len(model))
+		}
+		cl := "large-save>256-nodes"
+		if changes <= 256 {
+			cl = "large-save<=256-nodes"
+		}
+		ev.Case(fmt.Sprintf("large %d/%d", nkeys, changes), changes > 256, cl)
 	})
 }
 
